@@ -8,10 +8,32 @@ C05 — kernel-checked witnesses.
    model (= chibicc): in.b == 2;  specification (= gcc): in.b == 0.
    The witness lies in the region `InitSpec.BraceOverride`, outside which `C05_parse_spec_partial` is stated.
 
+   (Since the builder's deepening the region is exact for unions: a designator for a non-first union member inside fresh
+   braces - `union U u = { .b = 2 }` - is no longer counted as a member switch.)
+
+1b. NEW finding (region `InitSpec.AggExprOverride`, reported to the lead): after an initializer that is an expression of struct
+   type, a later initializer of the same list for a MEMBER of that struct reached without a member designator is stored in
+   the tree but never executed: `struct_initializer2` leaves `init->expr` set, and `create_lvar_init` copies the whole
+   expression and ignores the children.
+      struct T { int a, b; } y = {5, 6};   struct T x[1] = { [0] = y, [0] = 1 };
+   chibicc: x[0] == {5, 6};  gcc (and 6.7.9p19: the later initializer overrides): x[0].a == 1.
+   (`designation()` does reset `init->expr` for `.member` designators of a struct - `{ [0] = y, [0].b = 1 }` is right - but not
+   for a union, and the positional/elided path never does.)
+
+1c. Note (region `InitSpec.WideRange`): GNU range designators.  chibicc parses the initializer of `[a ... b]` once per element, so
+   an elided continuation lands in every element; gcc (the specification) stores one initializer in every element and continues
+   after the last:   struct P { int a, b; } x[2] = { [0 ... 1] = 1, 2 };   chibicc x[0].b == 2, gcc x[0].b == 0.
+   No C11 semantics; the general theorem `C05_parse_spec_partial` leaves the region out (it covers ranges whose initializer is
+   brace-enclosed, a string literal or one expression for the whole element: there chibicc and gcc agree).
+
 2. Repaired defect (`fix:` in /repo): `_Bool` bit-field, static storage.  `write_gvar_data` masked the unconverted value while
    `create_lvar_init` assigns (and so converts):
       struct B { _Bool b : 1; } s = { 2 };     pre-fix static: b == 0 (2 & 1), automatic: b == 1
    The repaired arm converts first (`newval != 0`); the witness below shows the pre-fix value and that both back ends now give 1.
+
+3. Repaired defect (`fix:` 8f0968b in /repo): a GNU empty union.  `union_initializer` dereferenced `init->ty->members` (NULL);
+   now `union E {} e = {};` skips excess elements through `struct_initializer1`, an initializer without braces consumes nothing, and
+   `create_lvar_init` emits no assignment.
 -/
 import ChibiVerif.Model.Init
 import ChibiVerif.Spec.InitSpec
@@ -60,5 +82,64 @@ theorem C05_repaired_bool_bitfield :
     (u64 2 &&& bfMask 1) <<< 0 = 0 ∧                                                     -- what the pre-fix arm stored
     (staticObject (.struct none [.leaf (some (Expr.num 2))]) tB).toOption = some [Cell.byte 1] ∧
     (autoObject (.struct none [.leaf (some (Expr.num 2))]) tB).toOption = some [Cell.byte 1] := by decide
+
+
+/-! ### region AggExprOverride -/
+
+/-- an expression of type `struct In` (a variable `y`) -/
+def yExpr : Expr := { ival := 1, nz := true, f32 := 0, f64 := 0, f80 := 0, isStruct := true }
+def tArr : Ty := .array tIn 1
+/-- `{ [0] = y, [0] = 1 }` -/
+def aggToks : List ITok := [.lbrace, .idx 0, .eq, .expr yExpr, .comma, .idx 0, .eq, n 1, .rbrace]
+
+def aggModelTree : Init := .arr [.struct (some yExpr) [.leaf (some (Expr.num 1)), .leaf none]]
+def aggSpecTree : Init := .arr [.struct none [.leaf (some (Expr.num 1)), .leaf none]]
+
+/-- the model (the code): the node keeps the expression `y`, and the automatic object is a copy of `y` - the `1` is lost -/
+theorem C05_finding_agg_expr_override_model :
+    (parseInit tArr aggToks).toOption.map (fun p => Init.beq p.1 aggModelTree) = some true ∧
+    ((parseInit tArr aggToks).toOption.bind (fun p => (autoObject p.1 tArr).toOption)) =
+      some ((List.range 8).map (fun k => Cell.sym "$struct" 1 k)) := by decide
+
+/-- the specification (6.7.9p19, gcc): the second initializer is for `x[0].a`; nothing of `y` is left in the tree -/
+theorem C05_finding_agg_expr_override_spec :
+    (InitSpec.init tArr aggToks).toOption.map (fun p => Init.beq p.1 aggSpecTree) = some true ∧
+    ((InitSpec.init tArr aggToks).toOption.bind (fun p => (autoObject p.1 tArr).toOption)) =
+      some ([1,0,0,0, 0,0,0,0].map Cell.byte) := by decide
+
+/-- parser ≠ specification on this input (which is outside `BraceOverride`) -/
+theorem C05_finding_agg_expr_override :
+    (match parseInit tArr aggToks, InitSpec.init tArr aggToks with
+      | .ok p, .ok q => Init.beq p.1 q.1
+      | _, _ => true) = false := by decide
+
+/-- the input lies in the declared region, and in no other -/
+theorem C05_finding_agg_expr_override_in_region :
+    InitSpec.AggExprOverride tArr aggToks = true ∧ InitSpec.BraceOverride tArr aggToks = false ∧
+      InitSpec.WideRange tArr aggToks = false := by decide
+
+/-! ### region WideRange -/
+
+def tArr2 : Ty := .array tIn 2
+/-- `{ [0 ... 1] = 1, 2 }` -/
+def wideToks : List ITok := [.lbrace, .range 0 1, .eq, n 1, .comma, n 2, .rbrace]
+
+theorem C05_note_wide_range :
+    objectOf (parseInit tArr2 wideToks) tArr2 = some ([1,0,0,0, 2,0,0,0, 1,0,0,0, 2,0,0,0].map Cell.byte) ∧
+    objectOf (InitSpec.init tArr2 wideToks) tArr2 = some ([1,0,0,0, 0,0,0,0, 1,0,0,0, 2,0,0,0].map Cell.byte) ∧
+    InitSpec.WideRange tArr2 wideToks = true := by decide
+
+/-! ### repaired: the empty union -/
+
+def tEmptyU : Ty := .union [] 0 false
+
+theorem C05_repaired_empty_union :
+    (parseInit tEmptyU [.lbrace, .rbrace]).toOption.map (fun p => (Init.beq p.1 (.union none none []), p.2)) = some (true, []) ∧
+    (parseInit tEmptyU [.lbrace, n 1, .comma, n 2, .rbrace]).toOption.map (fun p => (Init.beq p.1 (.union none none []), p.2))
+      = some (true, []) ∧                                                                       -- excess elements are skipped
+    (initializer2 9 tEmptyU [n 1] (newInit tEmptyU true)).toOption.map (fun p => (Init.beq p.1 (.union none none []), p.2))
+      = some (true, [n 1]) ∧                                                                    -- no braces: nothing consumed
+    (autoObject (.union none none []) tEmptyU).toOption = some [] ∧
+    (staticObject (.union none none []) tEmptyU).toOption = some [] := by decide
 
 end ChibiVerif.Findings.C05
